@@ -13,7 +13,7 @@ CLAIMED = {
  "C12": ("deterministic simulation in virtual time: protocol-error / non-damping event histories with drawn gaps (incl. errors coinciding with collision resolution or with the other connection becoming Established, and a slow user Logger that keeps the peer manager busy), executable hold-down model (60 s, doubling, 300 s cap, 300 s amnesia) vs dial records and inbound refusals",
          "Seeded exploration of histories of 1-8 events (every way to receive or provoke a non-Cease NOTIFICATION from every state and direction, interleaved with Cease/FIN/RST) separated by 0-700 s: the model predicts each hold-down window; no dial may occur inside it, inbound connections offered inside it (also 5 ms before its end) must be closed with zero bytes, a dial (active) or admission (passive) must follow within 1 s of its end, non-damping events must leave the model state untouched, and a well-behaved remote must finally establish. All delay values 60/120/240/300 s and the amnesia reset are reached.", T, "DESIGN.md 4 C12"),
  "C13": ("deterministic simulation: peer sets x phases x (source, destination, listener) probes at quiescent points, admission predicate vs bytes/EOF on the dialling side",
-         "Seeded exploration of 1-4 peers (IPv4/IPv6, with/without local address, active/passive), the target peer in one of ten phases (idle, dial pending, outbound OpenSent/OpenConfirm, inbound in progress, Established either way, held down, just deleted) and inbound connections from configured, other-peer, unconfigured, IPv6 and v4-mapped sources to every local address through specific and wildcard listeners: admitted connections must receive an OPEN, all others must be closed with zero bytes written, no plugin callback and no effect on any existing connection.", T, "DESIGN.md 4 C13"),
+         "Seeded exploration of 1-4 peers (IPv4/IPv6, with/without local address, active/passive), the target peer in one of ten phases (idle, dial pending, outbound OpenSent/OpenConfirm, inbound in progress, Established either way, held down, just deleted) and inbound connections from configured, other-peer, unconfigured, IPv6 and v4-mapped sources to every local address (three per family, one extending the text of another) through specific and wildcard listeners: admitted connections must receive an OPEN, all others must be closed with zero bytes written, no plugin callback and no effect on any existing connection.", T, "DESIGN.md 4 C13"),
  "C20": ("deterministic simulation: concurrent registry histories stamped with event sequence numbers and checked with porcupine against a sequential map model; validation grid; start/stop behaviour observed on the simulated network",
          "Seeded exploration of 2-4 concurrent client tasks x 3-10 operations over 3 keys with Serve/Close at drawn points under an adversarial schedule (the mutex hand-off order is the scheduler's choice): histories must be linearizable (porcupine; Unknown is counted, never reported), every invalid configuration of the grid must be rejected, dials are attributed to peers through their own dialer-control closure (target, source address, never before Serve, never after Close, never for passive peers), and a sequential phase checks start-on-add and stop-on-delete. NewServer's router-id check rides along.", T, "DESIGN.md 4 C20"),
  "C01": ("deterministic simulation: multi-peer chaos workload (collisions, per-connection deviations, churn, stalls, slow user Logger, free-running WriteUpdate callers), incremental callback automaton with task attribution",
@@ -34,7 +34,7 @@ CLAIMED = {
          "Seeded exploration of (local AS, hold time, router id, per-call plugin capability lists incl. code 65 and values > 255 bytes) over successive connections in both directions; the first frame of each connection is parsed by an independent strict parser and compared field by field with the configuration and with the capability list of the GetCapabilities call that preceded it. Unrepresentable lists must produce no bytes or a well-formed OPEN.", T, "DESIGN.md 4 C14"),
  # id: (technique, level text, level note, design ref)
  "C09": ("deterministic simulation: full (state x message x direction) reaction table against the instrumented FSM, quiescent-point wire oracle",
-         "Seeded exploration: every cell of {OpenSent,OpenConfirm,Established} x {OPEN,UPDATE,NOTIFICATION,KEEPALIVE,FIN,RST} x {in,out} is driven end-to-end through the real FSM under a tape-controlled goroutine schedule and TCP segmentation; the reaction observed on the wire and in the plugin log at the next quiescent point is compared with the RFC 4271 8.2.2 / RFC 6608 table. All 36 cells are hit thousands of times per quick run; NOTIFICATION contents and schedules are sampled, so this is evidence, not proof.",
+         "Seeded exploration: every cell of {OpenSent,OpenConfirm,Established} x {OPEN,UPDATE,NOTIFICATION,KEEPALIVE,FIN,RST} x {in,out} is driven end-to-end through the real FSM under a tape-controlled goroutine schedule and TCP segmentation; the reaction observed on the wire and in the plugin log at the next quiescent point is compared with the RFC 4271 8.2.2 / RFC 6608 table. Half of the FIN/RST runs end the stream inside a truncated message (cut in the header, behind it or in the body), which must still end silently and deliver nothing. All 36 cells are hit thousands of times per quick run; NOTIFICATION contents and schedules are sampled, so this is evidence, not proof.",
          "Trusts the instrumenter's rewrite rules, Go 1.26.8 synctest, the simulated transport (reliable stream; writes block only under the back-pressure fault C04 injects) and the harness' own RFC-derived codec.", "DESIGN.md 4 C09"),
 }
 
